@@ -225,7 +225,7 @@ def _run(ck, seed, quick, pool, nproc, t0):
         model_jobs["reuse_4calls"] = ex.submit(run_calls, "reuse4", calls_cfg([1], "shared_all", PURE, ALLDOCS, 4, 4),
                                                None, 2, tmo)
     else:
-        model_jobs["fresh_3threads"] = ex.submit(run_calls, "fresh3", calls_cfg([1, 2, 3], "fresh", CORE, [1, 3, 4, 5], 3, 1),
+        model_jobs["fresh_3threads"] = ex.submit(run_calls, "fresh3", calls_cfg([1, 2, 3], "fresh", CORE, [1, 3, 5], 3, 1),
                                                  None, 8, tmo)
         model_jobs["fresh_2threads_2calls"] = ex.submit(run_calls, "fresh2x2", calls_cfg([1, 2], "fresh", PURE, ALLDOCS, 4, 2),
                                                         None, 4, tmo)
@@ -297,12 +297,6 @@ def _run(ck, seed, quick, pool, nproc, t0):
         raise common.MachineryFailure("TLC produced %d histories, wanted %d" % (len(hists), nh))
     reuse_async = [pool.apply_async(L.task_reuse, ({"seed": seed, "doctable": doctable, "hists": ch},))
                    for ch in chunks(hists, 4 if quick else nproc)]
-
-    # ---- stress: free-running threads (submitted last; runs while the schedules drain)
-    secs = 4 if quick else 40
-    stress_async = [pool.apply_async(L.task_stress, ({"seed": seed, "doctable": doctable, "seconds": secs, "proc": i,
-                                                      "same_input": i % 2 == 0},))
-                    for i in range(4 if quick else nproc)]
 
     # ---- collect (M)
     for name, f in model_jobs.items():
@@ -413,6 +407,12 @@ def _run(ck, seed, quick, pool, nproc, t0):
     ck.sample({"forced_schedule": {"script": scripts[0][0], "one_of": expected_counts.get(1),
                                    "schedule": sched_key(sched_jobs[0][2]["scheds"][0]) if sched_jobs else None}})
 
+    # ---- stress: free-running threads, once the forced schedules are through (the stress processes
+    #      would starve the schedule processes of CPU and stretch their deadlines)
+    secs = 4 if quick else 40
+    stress_async = [pool.apply_async(L.task_stress, ({"seed": seed, "doctable": doctable, "seconds": secs, "proc": i,
+                                                      "same_input": i % 2 == 0},))
+                    for i in range(8 if quick else nproc)]
     mark("schedules_done")
     # ---- collect stress
     stress_counts = {}
@@ -467,7 +467,6 @@ def replay(path):
         print("not reproduced")
         return 0
     if part == "reuse":
-        hist = [{"call": h["call"], "exp": {"k": "?"}, "ret": {"k": "?"}} for h in case["history"]]
         docs, refs = L.get_env(case)
         W = L.Workers()
         bad = 0
@@ -477,7 +476,6 @@ def replay(path):
             want, _ = refs.get(h["call"], h["variant"])
             print("  %-50s %s" % (L.call_str(h["call"]), "same as fresh" if got == want else "DIFFERS from fresh"))
             bad += got != want
-        del hist
         if bad:
             print("VIOLATION property=C12 replay=%s  # %s" % (path, rep["signature"]))
             return 1
